@@ -491,3 +491,74 @@ def field_stores(prog, field, rec=None):
 
 def is_call(site, name):
     return site.ev['k'] == 'call' and site.ev.get('callee') == name
+
+
+def interval_forward(fn, ident, window=(-4, 8), kill=None):
+    """Small path-sensitive interval analysis over a few named quantities.  ident(expr) -> name or None picks the
+    expressions that are tracked (a global, a parameter, a field); every branch `x op constant` refines x's interval
+    on its edge; kill(site) -> iterable of names whose value the event may change.  Intervals are clamped to `window`
+    (values outside only matter as "below" / "above"), so the domain is finite.
+    Returns before: site key -> set of states, a state being a tuple of (name, lo, hi)."""
+    lo_w, hi_w = window
+
+    def clamp(a, b):
+        return (max(lo_w, min(hi_w, a)), max(lo_w, min(hi_w, b)))
+
+    def refine(iv, op, c):
+        lo, hi = iv
+        if op == '==':
+            lo, hi = max(lo, c), min(hi, c)
+        elif op == '!=':
+            if lo == hi == c:
+                return None
+            if lo == c:
+                lo += 1
+            if hi == c:
+                hi -= 1
+        elif op == '<':
+            hi = min(hi, c - 1)
+        elif op == '<=':
+            hi = min(hi, c)
+        elif op == '>':
+            lo = max(lo, c + 1)
+        elif op == '>=':
+            lo = max(lo, c)
+        if lo > hi:
+            return None
+        return clamp(lo, hi)
+
+    def on_edge(st, e):
+        r = edge_rel(e)
+        if not r:
+            return st
+        l, op, rr = r
+        c = const_of(rr)
+        nm = ident(l)
+        if nm is None or not isinstance(c, int):
+            return st
+        d = dict((n, (a, b)) for n, a, b in st)
+        iv = d.get(nm, (lo_w, hi_w))
+        if not (lo_w < c < hi_w):
+            return st
+        nv = refine(iv, op, c)
+        if nv is None:
+            return None
+        d[nm] = nv
+        return tuple(sorted((n, a, b) for n, (a, b) in d.items()))
+
+    def on_event(st, s):
+        if kill is None:
+            return st
+        ks = set(kill(s) or ())
+        if not ks:
+            return st
+        return tuple(x for x in st if x[0] not in ks)
+    before, at_exit, sin, bout = fn.forward((), on_event, on_edge)
+    return before
+
+
+def interval_of(st, name, window=(-4, 8)):
+    for n, a, b in st:
+        if n == name:
+            return (a, b)
+    return window
